@@ -708,6 +708,8 @@ where
                 let consts = mem::take(&mut self.consts);
                 // We compile the program in a separate thread so we don't block the runtime
                 let span = Span::current();
+                #[cfg(feature = "__verif")]
+                use crate::verif::thread;
                 thread::spawn(move || {
                     let _g = span.enter();
                     debug!("compiling garble program");
